@@ -44,7 +44,12 @@ def load_known(prop):
 
 
 def slug(s):
-    return re.sub(r"[^A-Za-z0-9]+", "-", s).strip("-")[:60]
+    t = re.sub(r"[^A-Za-z0-9]+", "-", s).strip("-")
+    if len(t) <= 60:
+        return t
+    import hashlib
+
+    return t[:52] + "-" + hashlib.sha1(s.encode()).hexdigest()[:7]
 
 
 def run_shards(prop, shards, th, native, workdir, default_wd):
